@@ -272,6 +272,27 @@ Theorem C06_publish_number : forall w loopMS c now tsbdMS pph seg cont ases ps p
 Proof. exact livePeriods_publish. Qed.
 Print Assumptions C06_publish_number.
 
+(** ** Stop time *)
+
+(** From the stop time on (stop_/stoprel_) the multi-period result no longer depends on the
+    instant of the request and is the split of the MPD of the stop instant; before it the stop time
+    has no influence.  (The MPD is made static after the split, never instead of it.) *)
+Theorem C06_stop_frozen : forall w loopMS c now1 now2 s tsbdMS pph seg mode cont ases,
+  s * 1000 <= now1 -> s * 1000 <= now2 ->
+  livePeriodsStop w loopMS c now1 (Some s) tsbdMS pph seg mode cont ases =
+  livePeriodsStop w loopMS c now2 (Some s) tsbdMS pph seg mode cont ases /\
+  livePeriodsStop w loopMS c now1 (Some s) tsbdMS pph seg mode cont ases =
+  livePeriods w loopMS c (s * 1000) tsbdMS pph seg mode cont ases.
+Proof. exact stop_frozen. Qed.
+Print Assumptions C06_stop_frozen.
+
+Theorem C06_stop_before : forall w loopMS c now s tsbdMS pph seg mode cont ases,
+  now <= s * 1000 ->
+  livePeriodsStop w loopMS c now (Some s) tsbdMS pph seg mode cont ases =
+  livePeriods w loopMS c now tsbdMS pph seg mode cont ases.
+Proof. exact stop_before. Qed.
+Print Assumptions C06_stop_before.
+
 (** ** Rejection, continuity, range of periods-per-hour *)
 
 (** A period duration that is not a multiple of asset.SegmentDurMS is rejected with an error (the
